@@ -367,6 +367,19 @@ def zeros(
     iszero = np.logical_not(np.isin(tmpidx, nz_idx))
     tmpsubs = tmpsubs[iszero, :]
 
+    # With replacement further draws can always top up a short sample
+    attempts = 0
+    while with_replacement and tmpsubs.shape[0] < samples_requested and attempts < 100:
+        moresubs = (
+            np.ceil(
+                np.random.uniform(0, 1, (samples, data.ndims)) * np.array(data.shape),
+            ).astype(int)
+            - 1
+        )
+        morezero = np.logical_not(np.isin(tt_sub2ind(data.shape, moresubs), nz_idx))
+        tmpsubs = np.vstack((tmpsubs, moresubs[morezero, :]))
+        attempts += 1
+
     # Trim back to desired numb of samples
     samples = min(tmpsubs.shape[0], samples_requested)
 
